@@ -21,6 +21,7 @@ SUBS = [
     dict(name="giant-sha256", quick=dict(cases=1, shards=1), thorough=dict(cases=2, shards=2)),
     dict(name="giant-sha1", quick=dict(cases=1, shards=1), thorough=dict(cases=2, shards=2)),
     dict(name="giant-md5", quick=dict(cases=1, shards=1), thorough=dict(cases=2, shards=2)),
+    dict(name="giant-crc32c", quick=dict(cases=1, shards=1), thorough=dict(cases=3, shards=3)),
 ]
 LIB = {"sha256.c", "sha256_shani.c", "sha256_sse2.c", "sha1.c", "md5.c", "crc32c.c", "crc32c_sse42.c",
        "cpusupport_x86_shani.c", "cpusupport_x86_sse2.c", "cpusupport_x86_sse42.c", "cpusupport_x86_ssse3.c",
